@@ -9,3 +9,4 @@ CONSTANTS
   BC <- SBC
   BBit <- SBBit
   BBase <- SBBase
+  BHas <- SBHas
